@@ -10,7 +10,7 @@ ASSUMPTIONS = vh_c02.ASSUMPTIONS[:4] + [
 SPLIT = {"nested_par": [("_fail", "fail")], "par_branch_retry": [("_fail", "bfail")], "par_inner_catch": [("_fail", "bfail")], "par2": [("_none", "not fa and not fb"), ("_a", "fa and not fb"), ("_ab", "fa and fb")],
          "par_catch": [("_s%d_a" % s, "sib == %d and fa and not fb" % s) for s in range(3)],
          "map_items": [("_ok", "failing == -1"), ("_fail", "failing >= 0 and n >= 1")]}
-scn.register(globals(), {"C09"}, ["seq_chain", "seq_misc", "two_execs", "start_routes", "par2", "par_pass_task", "par_catch", "par_retry", "map_items", "par_wait_fail", "par_branch_retry", "par_inner_catch", "nested_par"], SPLIT)
+scn.register(globals(), {"C09"}, ["seq_chain", "seq_misc", "exec_timeout", "two_execs", "start_routes", "par2", "par_pass_task", "par_catch", "par_retry", "map_items", "par_wait_fail", "par_branch_retry", "par_inner_catch", "nested_par"], SPLIT)
 import s2_more as more
 more.register(globals(), {"C09"}, ["par3_mixed", "map_iter_catch", "map_fail_batches", "map_in_par", "par_in_map", "branch_fail_state", "par_longform", "nested_inner_catch"],
               {"par3_mixed": [("_none", "not fa and not fb"), ("_a", "fa and not fb"), ("_b", "fb and not fa"), ("_ab", "fa and fb")], "map_in_par": [("_k%d" % k, "kind == %d" % k) for k in range(3)]})
